@@ -750,6 +750,75 @@ impl Gen {
         true
     }
 
+    /// Scenario (mirror of `scenario_move_weak`, for strong pointers and *fresh* holders): during
+    /// marking, an older object `c` that the marker has not reached yet — read from a holder that is
+    /// still white or queued, or obtained by upgrading a weak pointer to a weakly marked target — is
+    /// put in the INITIAL slots of a new tracing allocation `n`; `n` is attached to an already black
+    /// owner through a sanctioned path; the old edge to `c` is cleared.  From then on `c` is
+    /// reachable only through `n`, whose initial contents the marker must still trace.  Followed by
+    /// two full cycles.
+    fn scenario_move_into_fresh(&mut self, w: &World, ai: usize) -> bool {
+        let sh = &w.arenas[ai].shadow;
+        let cols = &w.arenas[ai].colors;
+        let col = |i: u32| cols.get(&i).map(|c| c.0);
+        let reach = sh.reachable();
+        let acc = sh.accessible();
+        let mut ids: Vec<u32> = acc.iter().copied().collect();
+        ids.sort();
+        // (holder, slot, child, via upgrade)
+        let mut cands: Vec<(u32, usize, u32, bool)> = vec![];
+        for h in &ids {
+            let o = &sh.objs[*h as usize];
+            if o.dropped > 0 || o.leaf || o.kind == Kind::OnceCell {
+                continue;
+            }
+            for (k, s) in o.slots.iter().enumerate() {
+                match s {
+                    // strong edge from a holder the marker has not traced yet to a white child
+                    Some(SP::S(c)) if matches!(col(*h), Some(b'W') | Some(b'G') | Some(b'w')) && matches!(col(*c), Some(b'W') | Some(b'w')) && sh.objs[*c as usize].dropped == 0 && c != h => cands.push((*h, k, *c, false)),
+                    // weak edge (any holder) to a target that is at most weakly marked
+                    Some(SP::W(c)) if matches!(col(*c), Some(b'w') | Some(b'W')) && sh.objs[*c as usize].dropped == 0 && c != h => cands.push((*h, k, *c, true)),
+                    _ => {}
+                }
+            }
+        }
+        let Some((h, k, c, up)) = self.rng.pick(&cands).copied() else { return false };
+        let mut owners: Vec<u32> = reach.iter().copied().filter(|i| *i != h && *i != c && Self::can_adopt(sh, *i) && col(*i) == Some(b'B')).collect();
+        owners.sort();
+        let Some(p) = self.rng.pick(&owners).copied() else { return false };
+        let (pk, hk) = (sh.objs[p as usize].kind, sh.objs[h as usize].kind);
+        if !sh.holds(SP::S(h)) {
+            match sh.path_to(h) {
+                Some(path) => path.into_iter().for_each(|op| self.push(ai, op)),
+                None => return false,
+            }
+        }
+        self.push(ai, Op::Read(h, k));
+        if up {
+            self.push(ai, Op::Upgrade(c));
+        }
+        if !sh.holds(SP::S(p)) {
+            match sh.path_to(p) {
+                Some(path) => path.into_iter().for_each(|op| self.push(ai, op)),
+                None => return false,
+            }
+        }
+        let n = sh.objs.len() as u32;
+        let nk = if self.dyn_kinds() && self.rng.chance(1, 4) { Kind::DynNode } else if self.lock_kinds() && self.rng.chance(1, 4) { Kind::RefNode } else { Kind::Node };
+        let mut slots = vec![None, None, None];
+        slots[self.rng.below(3)] = Some(SP::S(c));
+        self.push(ai, Op::Alloc { kind: nk, slots });
+        let i = self.rng.below(pk.nslots());
+        let route = if self.rng.chance(1, 6) { 1 } else { 0 };
+        self.emit_store(ai, pk, p, i, Some(SP::S(n)), route, None);
+        if !up {
+            // forget the old edge: only the fresh object holds c now
+            self.emit_store(ai, hk, h, k, None, 0, None);
+        }
+        self.want_reclaim = true;
+        true
+    }
+
     /// Scenario: during a sweep, a forward barrier naming a holder the sweep has not reached yet
     /// (still black) and a fresh object that is then forgotten; followed by finish_cycle x2.
     fn scenario_barrier_in_sweep(&mut self, w: &World, ai: usize) -> bool {
@@ -789,6 +858,13 @@ impl Gen {
             return;
         }
         if w.arenas[ai].phase == b'M' && self.rng.chance(1, 3) && self.scenario_move_weak(w, ai) {
+            return;
+        }
+        if w.arenas[ai].phase == b'M'
+            && matches!(self.profile, Profile::Core | Profile::Barrier | Profile::Weak | Profile::Reclaim)
+            && self.rng.chance(1, 3)
+            && self.scenario_move_into_fresh(w, ai)
+        {
             return;
         }
         if self.rng.chance(1, 14) {
